@@ -289,6 +289,135 @@ func c12FrameSizes(msize uint32, dotu bool) Scenario {
 	}}
 }
 
+// c12Pipelined: the client does not wait for Rversion - Tversion, Tattach and the
+// next frame travel in one write (and so reach the server in one read). The
+// negotiated msize applies to everything behind the Tversion all the same.
+func c12Pipelined(srvMsize, cliMsize uint32, dotu bool) Scenario {
+	name := fmt.Sprintf("pipelined-after-version server-msize=%d client-msize=%d dotu=%v", srvMsize, cliMsize, dotu)
+	return Scenario{Name: name, Run: func(rc *RunCtx) *Result {
+		res := &Result{Exhaustive: true}
+		seen := map[string]bool{}
+		ver := "9P2000"
+		if dotu {
+			ver = "9P2000.u"
+		}
+		eff := cliMsize
+		if srvMsize < eff {
+			eff = srvMsize
+		}
+		type third struct {
+			name string
+			raw  func(fs *FS) []byte
+			bad  bool // announces more than the negotiated msize
+		}
+		var thirds []third
+		for _, sz := range []uint32{eff - 1, eff, eff + 1, 2 * eff, srvMsize, srvMsize + 1} {
+			sz := sz
+			if sz < 23 {
+				continue
+			}
+			thirds = append(thirds, third{name: fmt.Sprintf("twrite-announcing-%d", sz), bad: sz > eff, raw: func(fs *FS) []byte {
+				body := []byte{0, 0, 0, 0, wire.Twrite, 9, 0, 0, 0, 0, 0, 0, 0, 0, 0, 0, 0, 0, 0, 0, 0, 0, 0}
+				binary.LittleEndian.PutUint32(body, sz)
+				pad := make([]byte, int(sz)-len(body))
+				binary.LittleEndian.PutUint32(body[19:], uint32(len(pad)))
+				return append(body, pad...)
+			}})
+		}
+		for _, n := range []int{0, 40, 300, 2000} {
+			n := n
+			thirds = append(thirds, third{name: fmt.Sprintf("stat-name-%d", n), raw: func(fs *FS) []byte {
+				fs.Script[reqKey{0, 9, 0}] = &Action{StatName: strings.Repeat("N", n)}
+				return wire.Encode(&wire.Msg{Type: wire.Tstat, Tag: 9, Fid: 0}, dotu)
+			}})
+			thirds = append(thirds, third{name: fmt.Sprintf("error-text-%d", n), raw: func(fs *FS) []byte {
+				fs.Script[reqKey{0, 9, 0}] = &Action{Err: "E" + strings.Repeat("e", n)}
+				return wire.Encode(&wire.Msg{Type: wire.Tstat, Tag: 9, Fid: 0}, dotu)
+			}})
+		}
+		for _, cnt := range []uint32{eff - 24, eff - 23, srvMsize - 24} {
+			cnt := cnt
+			thirds = append(thirds, third{name: fmt.Sprintf("read-count-%d", cnt), raw: func(fs *FS) []byte {
+				fs.Script[reqKey{0, 9, 0}] = &Action{ReadFull: true}
+				return wire.Encode(&wire.Msg{Type: wire.Tread, Tag: 9, Fid: 0, Count: cnt}, dotu)
+			}})
+		}
+		for _, th := range thirds {
+			for _, split := range []string{"one-write", "version-alone"} {
+				var fail string
+				body := func() {
+					fs := NewFS()
+					h := NewSrvH(fs, SrvOpt{Msize: srvMsize, Dotu: dotu})
+					c := h.Connect()
+					c.Dotu = dotu
+					tv := wire.Encode(&wire.Msg{Type: wire.Tversion, Tag: wire.NOTAG, Msize: cliMsize, Version: ver}, false)
+					rest := append(wire.Encode(tattach(1, 0, wire.NOFID, "", 7, dotu), dotu), th.raw(fs)...)
+					if split == "one-write" {
+						c.SendRaw(append(tv, rest...))
+					} else {
+						c.SendRaw(tv)
+						c.SendRaw(rest) // still before the Rversion is read
+					}
+					vs.Idle()
+					fr := c.Collect()
+					if len(fr) == 0 || fr[0].Msg == nil || fr[0].Msg.Type != wire.Rversion || fr[0].Msg.Msize != eff {
+						fail = fmt.Sprintf("no Rversion with msize %d first", eff)
+						return
+					}
+					for _, f := range fr[1:] {
+						if uint32(len(f.Raw)) > eff {
+							fail = fmt.Sprintf("a reply of %d bytes was sent behind an Rversion that negotiated msize %d", len(f.Raw), eff)
+							return
+						}
+						if f.Msg == nil {
+							fail = "a reply behind the Rversion does not parse: " + f.Err
+							return
+						}
+						if f.Msg.Type == wire.Rread && uint32(len(f.Msg.Data)) > eff-24 {
+							fail = "an Rread carries more data than msize allows"
+							return
+						}
+					}
+					if th.bad {
+						for _, f := range fr[1:] {
+							if f.Msg.Tag == 9 {
+								fail = fmt.Sprintf("a frame announcing more than the negotiated msize %d, sent right behind the Tversion, was answered: %v", eff, f.Msg)
+								return
+							}
+						}
+						for _, e := range fs.Log {
+							if e.Kind == "call" && e.Tag == 9 {
+								fail = fmt.Sprintf("a frame announcing more than the negotiated msize %d, sent right behind the Tversion, reached the implementation", eff)
+								return
+							}
+						}
+						if !c.End.PeerClosed() {
+							fail = fmt.Sprintf("connection still open after a frame announcing more than the negotiated msize %d sent right behind the Tversion", eff)
+						}
+					}
+				}
+				x := vs.Run(nil, body, vs.Options{})
+				res.Evals++
+				res.Nontrivial++
+				if len(x.Panics) > 0 {
+					fail = "panic: " + x.Panics[0].Value + " at " + x.Panics[0].Frame
+				} else if len(x.Fails) > 0 && fail == "" {
+					fail = "harness: " + x.Fails[0]
+				}
+				if fail != "" {
+					sig := "C12/pipelined/" + sigWords(fail)
+					if !seen[sig] {
+						seen[sig] = true
+						res.Findings = append(res.Findings, Finding{Sig: sig, Msg: fmt.Sprintf("%s, third frame %s (%s): %s", name, th.name, split, fail)})
+					}
+				}
+			}
+		}
+		res.Samples = append(res.Samples, fmt.Sprintf("%d kinds of third frame x {one write, Tversion in its own write}", len(thirds)))
+		return res
+	}}
+}
+
 func onlyConnEntries(es []Entry) bool {
 	for _, e := range es {
 		if e.Kind != "connclose" && e.Kind != "destroy" && e.Kind != "connopen" {
@@ -320,6 +449,9 @@ func c12Scenarios(tier string) []Scenario {
 	for _, ms := range []uint32{32, 256, 8216} {
 		out = append(out, c12FrameSizes(ms, false), c12FrameSizes(ms, true))
 	}
+	for _, pr := range [][2]uint32{{8216, 64}, {8216, 256}, {256, 8216}, {65560, 4120}} {
+		out = append(out, c12Pipelined(pr[0], pr[1], false), c12Pipelined(pr[0], pr[1], true))
+	}
 	out = append(out, c12ClientScenarios(tier)...)
 	return out
 }
@@ -327,7 +459,7 @@ func c12Scenarios(tier string) []Scenario {
 func init() {
 	register(&Property{ID: "C12", Level: "exploration",
 		Technique: "bounded-exhaustive enumeration of negotiation configurations and reply forms, executed on the real server and client under the controlled scheduler",
-		Rule:      "grid server msize {0,23,24,25,32,256,8216,65560,2^20+24} x client msize {0,23,24,25,32,256,8216,65560,2^20+24,2^31,2^32-1, server +-1} x server dialect x 7 version strings; after negotiation Rstat with 0..300-byte names, Rerror with 0..300-byte text, Rwalk 0..16 qids, Rread 0,1,L-1,L - each as first request after Tversion and after a renegotiation, 4 dialect combinations, 5 (thorough 10) msize pairs; announced frame sizes {0..8, msize-1, msize, msize+1, 2*msize, 8*msize+1, 2^16, 2^31, 2^32-1} header-only and full; client direction: Connect against a scripted peer over the same grid. distinct = configurations executed",
+		Rule:      "grid server msize {0,23,24,25,32,256,8216,65560,2^20+24} x client msize {0,23,24,25,32,256,8216,65560,2^20+24,2^31,2^32-1, server +-1} x server dialect x 7 version strings; after negotiation Rstat with 0..300-byte names, Rerror with 0..300-byte text, Rwalk 0..16 qids, Rread 0,1,L-1,L - each as first request after Tversion and after a renegotiation, 4 dialect combinations, 5 (thorough 10) msize pairs; announced frame sizes {0..8, msize-1, msize, msize+1, 2*msize, 8*msize+1, 2^16, 2^31, 2^32-1} header-only and full; Tversion pipelined with Tattach and a third frame (oversize Twrite, long Rstat/Rerror, reads at the limit) in one write and in two, 4 msize pairs x dialect; client direction: Connect against a scripted peer over the same grid. distinct = configurations executed",
 		Assumptions: []string{"server msize above 2^20+24 is not instantiated (8 x msize receive buffer per connection)", "the framework is not required to police an implementation that returns more data than asked"},
 		Scenarios:   c12Scenarios, QuickS: 100, ThoroughS: 600})
 }
